@@ -923,14 +923,22 @@ func (r *c13Run) tradeRefs(p *c13Pool, inC, outC types.CoinID, buy bool) []*big.
 		c = outC
 	}
 	refs := []*big.Int{p.r[c], p.r[c], p.r[c], p.r[c], p.r[p.other(c)]}
+	book := big.NewInt(0)
 	for _, o := range r.orders {
 		if o.open && o.sell == outC && o.buy == inC {
 			if buy {
 				refs = append(refs, o.wantSell)
+				book = c13add(book, o.wantSell)
+				// everything an order offers plus everything the pool holds: the largest amount that can
+				// be asked for at all sits right behind these values
+				refs = append(refs, c13add(p.r[c], o.wantSell))
 			} else {
 				refs = append(refs, o.wantBuy)
 			}
 		}
+	}
+	if buy && book.Sign() == 1 {
+		refs = append(refs, c13add(p.r[c], book), c13add(p.r[c], book))
 	}
 	return refs
 }
